@@ -93,7 +93,7 @@ fn pools() -> &'static BTreeMap<usize, rayon::ThreadPool> {
     P.get_or_init(|| [1usize, 2, 3, 4, 8, 16].into_iter().map(|k| (k, rayon::ThreadPoolBuilder::new().num_threads(k).build().expect("pool"))).collect())
 }
 
-struct Input<T> { m: usize, n: usize, entries: Vec<(usize, usize, T)>, family: &'static str }
+pub struct Input<T> { pub m: usize, pub n: usize, pub entries: Vec<(usize, usize, T)>, pub family: &'static str }
 
 fn pick<T: Clone>(rng: &mut Rng, v: &[T]) -> T { rng.choose(v).clone() }
 
@@ -119,7 +119,7 @@ fn gen_random<T: PivRing>(rng: &mut Rng, max_dim: usize) -> Input<T> where for<'
 
 /// one light dense row that becomes the single sequential pivot and occupies every column; every other
 /// row starts with a heavy non-candidate and carries a few +-1 in columns shared with other rows
-fn gen_starved<T: PivRing>(rng: &mut Rng, max_dim: usize) -> Option<Input<T>> where for<'x> &'x T: RingOps<T> {
+pub fn gen_starved<T: PivRing>(rng: &mut Rng, max_dim: usize) -> Option<Input<T>> where for<'x> &'x T: RingOps<T> {
     let heavy = T::heavy()?;
     let ones = T::pm_ones();
     let m = rng.urange(3, max_dim);
